@@ -374,6 +374,7 @@ func seqProfile0(prop, tier string) *SeqProfile {
 		g.KeyPool = []string{"n", "a", "b", "g"}
 		g.WDeleteMulti, g.WTrim, g.WCompact, g.ROPct = 0, 0, 0, 0
 		g.BigEvery, g.LargeEvery = 0, 0 // every file-system step of every operation is a case here: small histories only
+		g.EagerOneIn = 2                // migrations rewrite every segment: many crash points that nothing else reaches
 		g.WPublish, g.WDelete, g.WReopen, g.WSync, g.WGC = 40, 30, 12, 8, 2
 		g.Rollovers = []int64{60, 100, 150, 300, 5000}
 		g.TimeMode = "mono"
@@ -394,6 +395,12 @@ func seqProfile0(prop, tier string) *SeqProfile {
 			}
 		}
 		return &SeqProfile{Prop: prop, Gen: g, Design: design, NRandom: tierN(tier, 40, 600), Module: "TraceCrash.tla", Cfg: "TraceCrash.cfg",
+			Hist: func(id int, seed int64) *History {
+				if id%8 == 7 {
+					return genMigrateHistory(id, seed)
+				}
+				return genHistory(id, seed, g)
+			},
 			RunHist: func(r *SeqRun, h *History, tw *TraceWriter, root string) {
 				c := &crashRunner{r: r, h: h, tw: tw, root: root, torn: tierS(r.Tier, "classes", "all"), depth2: !ploss, plossOn: ploss, crashOn: !ploss}
 				c.run()
